@@ -45,6 +45,9 @@ Check(row, Node) ==
          ELSE IF row.re # row.rel THEN "Rel.text_roundtrip"
          ELSE IF ~row.reeq THEN "Rel.reparsed_not_equal"
          ELSE IF ~row.heq THEN "Rel.equal_paths_hash_differently"
+         \* two different objects have different paths; paths that compare equal must hash equally
+         ELSE IF row.a # row.b /\ row.peq THEN "Path.distinct_objects_compare_equal"
+         ELSE IF row.peq /\ ~row.pheq THEN "Path.equal_paths_hash_differently"
          ELSE ""
     [] row.kind = "pos" ->
          LET c == P!Resolve(row.path) IN
